@@ -32,6 +32,8 @@ Fam(r) ==
           \cup {<<x, D(u0, EmptyMap)>> : x \in upd}
           \cup UNION { {<<x, y>> : y \in {z \in upd : z.p # x.p}} : x \in upd }
           \cup {<<x>> : x \in oth}
+          \* the same value asserted again later (the second update's old value equals its value)
+          \cup UNION { {<<x, y>> : y \in {z \in upd : z.p = x.p /\ z.t > x.t}} : x \in upd }
      ELSE {<<>>} \cup {<<C(u0)>>} \cup {<<C(u0), x>> : x \in upd}
           \cup {<<C(u0), x, D(u0, EmptyMap)>> : x \in upd}
 
